@@ -20,6 +20,7 @@ type WCfg struct {
 	Kind     int   // 1 blocking 2 deadline 3 queue
 	Fifo     bool  // expected ordering of the queue (what the constructor's name / documentation promises)
 	MaxB     int64 // expected backlog bound
+	RawB     int64 // backlog size handed to the constructor when it differs from the expected bound (<= 0 asks for the default 100); 0 = MaxB
 	Timeout  int64 // ns: queue backlog timeout / blocking poll period (0 none)
 	Deadline int64 // ns after the start of the scenario (deadline limiter)
 	Evict    bool
@@ -54,6 +55,10 @@ type WSUT struct {
 
 // NewWSUT must be called inside a synctest bubble.
 func NewWSUT(c WCfg) (*WSUT, error) {
+	rawB := int(c.MaxB)
+	if c.RawB != 0 {
+		rawB = int(c.RawB)
+	}
 	w := &WSUT{Cfg: c, Reg: newRecRegistry(), Now0: time.Now().UnixNano()}
 	if c.Precise {
 		s := strategy.NewPreciseStrategy(int(c.Limit))
@@ -81,22 +86,22 @@ func NewWSUT(c WCfg) (*WSUT, error) {
 	case "deadline":
 		w.Lim = limiter.NewDeadlineLimiter(d, time.Unix(0, w.Absdl), nil)
 	case "config":
-		q := limiter.NewQueueBlockingLimiterFromConfig(d, limiter.QueueLimiterConfig{Ordering: ord, MaxBacklogSize: int(c.MaxB), MaxBacklogTimeout: to, BacklogEvictDoneCtx: c.Evict, MetricRegistry: w.Reg})
+		q := limiter.NewQueueBlockingLimiterFromConfig(d, limiter.QueueLimiterConfig{Ordering: ord, MaxBacklogSize: rawB, MaxBacklogTimeout: to, BacklogEvictDoneCtx: c.Evict, MetricRegistry: w.Reg})
 		w.Lim, w.Queue = q, q
 	case "config-default-order": // ordering left empty: documented default is LIFO
-		q := limiter.NewQueueBlockingLimiterFromConfig(d, limiter.QueueLimiterConfig{MaxBacklogSize: int(c.MaxB), MaxBacklogTimeout: to, BacklogEvictDoneCtx: c.Evict, MetricRegistry: w.Reg})
+		q := limiter.NewQueueBlockingLimiterFromConfig(d, limiter.QueueLimiterConfig{MaxBacklogSize: rawB, MaxBacklogTimeout: to, BacklogEvictDoneCtx: c.Evict, MetricRegistry: w.Reg})
 		w.Lim, w.Queue = q, q
 	case "with-defaults":
 		q := limiter.NewQueueBlockingLimiterWithDefaults(d)
 		w.Lim, w.Queue = q, q
 	case "lifo":
-		q := limiter.NewLifoBlockingLimiter(d, int(c.MaxB), to, w.Reg)
+		q := limiter.NewLifoBlockingLimiter(d, rawB, to, w.Reg)
 		w.Lim, w.Queue = q, q.QueueBlockingLimiter
 	case "lifo-defaults":
 		q := limiter.NewLifoBlockingLimiterWithDefaults(d)
 		w.Lim, w.Queue = q, q.QueueBlockingLimiter
 	case "fifo":
-		q := limiter.NewFifoBlockingLimiter(d, int(c.MaxB), to)
+		q := limiter.NewFifoBlockingLimiter(d, rawB, to)
 		w.Lim, w.Queue = q, q.QueueBlockingLimiter
 	case "fifo-defaults":
 		q := limiter.NewFifoBlockingLimiterWithDefaults(d)
